@@ -202,6 +202,23 @@ def run(ctx):
                        "a data-intent WAL record can be logged with an empty buffer (zero-length write inside the "
                        "file); replay interprets an empty record as `truncate to pos`", b.loc(i))
     ctx.floor("R01d", "WriteAheadLog::insert call sites in FileStorage::{write,resize}", n_sites, 3)
+    # a write may extend the file (pos < len < end): besides the overwritten bytes the pre-operation length must be
+    # logged, i.e. `write` needs a truncate-intent record of its own (the append case pos == len is covered by the
+    # empty data record, which replay reads as `truncate to pos`)
+    wb = fa.body(FS_SD + "write")
+    if wb:
+        trunc = []
+        for i, t in cfg.calls(wb):
+            if cfg.callee(t) == WAL + "::insert":
+                vo = cfg.op_origin(wb, t["a"][2])
+                po = cfg.op_origin(wb, t["a"][1])
+                dc = cfg.def_call(wb, po[0]) if po else None
+                if vo and "[u8; 0]" in wb.local_ty(vo[0]) and dc and (cfg.callee(dc[1]) or "").endswith("StorageData>::len"):
+                    trunc.append(i)
+        ctx.ob("R01d", "write:growth-logged", bool(trunc),
+               "a write that extends the file logs the current length (truncate-intent record)" if trunc else
+               "FileStorage::write never logs the pre-operation length: a write that starts inside the file and extends "
+               "it (pos < len < end) is undone only partially, the file stays longer after recovery", wb.where)
     rb = ctx.anchor("R01d", FS + "::apply_wal_record")
     if rb:
         # reader side: the is_empty() test of the record value selects set_len vs write
